@@ -3,6 +3,7 @@ package main
 // Shared helpers for "gate" rules: fail edges, cancel calls, error results, facts on calls.
 
 import (
+	"go/constant"
 	"go/token"
 	"go/types"
 	"strings"
@@ -225,6 +226,43 @@ func factCmp(fs []fact, op token.Token, px, py func(ssa.Value) bool) bool {
 		}
 		if swap[o] == op && px(y) && py(x) {
 			return true
+		}
+		// the same fact about an integer in its other spellings: x > k is x >= k+1, x < k is x <= k-1; and for a
+		// length, len <= 0 / len < 1 is len == 0, len > 0 / len >= 1 is len != 0
+		if k, isK := constInt(y); isK && px(x) {
+			if _, isInt := x.Type().Underlying().(*types.Basic); isInt && x.Type().Underlying().(*types.Basic).Info()&types.IsInteger != 0 {
+				alt := func(o2 token.Token, k2 int64) bool {
+					return o2 == op && py(ssa.NewConst(constant.MakeInt64(k2), y.Type()))
+				}
+				switch o {
+				case token.GTR:
+					if alt(token.GEQ, k+1) {
+						return true
+					}
+				case token.GEQ:
+					if alt(token.GTR, k-1) {
+						return true
+					}
+				case token.LSS:
+					if alt(token.LEQ, k-1) {
+						return true
+					}
+				case token.LEQ:
+					if alt(token.LSS, k+1) {
+						return true
+					}
+				}
+				if lc, _ := callOf(x); lc != nil && (calleeID(&lc.Call) == "builtin len" || calleeID(&lc.Call) == "builtin cap") {
+					zero := (o == token.LEQ && k == 0) || (o == token.LSS && k == 1) || (o == token.EQL && k == 0)
+					pos := (o == token.GTR && k == 0) || (o == token.GEQ && k == 1) || (o == token.NEQ && k == 0)
+					if zero && (alt(token.EQL, 0) || alt(token.LEQ, 0) || alt(token.LSS, 1)) {
+						return true
+					}
+					if pos && (alt(token.NEQ, 0) || alt(token.GTR, 0) || alt(token.GEQ, 1)) {
+						return true
+					}
+				}
+			}
 		}
 	}
 	return false
@@ -511,4 +549,85 @@ func (c *Ctx) orWrapper(id string, pred func(ssa.Instruction) bool) func(ssa.Ins
 		return must(g, depth)
 	}
 	return func(in ssa.Instruction) bool { return wrapped(in, 0) }
+}
+
+// strPart: one piece of a string that the code assembles: a literal, or a value spliced in.
+type strPart struct {
+	lit string
+	val ssa.Value
+}
+
+// stringParts: the pieces of a string built by fmt.Sprintf (only %s/%v/%d verbs) or by concatenation, in order,
+// adjacent literals merged. `"#" + typ + ":" + buf + nl` and Sprintf("#%s:%s%s", typ, buf, nl) have the same parts.
+func stringParts(v ssa.Value) ([]strPart, bool) {
+	var out []strPart
+	addLit := func(s string) {
+		if s == "" {
+			return
+		}
+		if n := len(out); n > 0 && out[n-1].val == nil {
+			out[n-1].lit += s
+			return
+		}
+		out = append(out, strPart{lit: s})
+	}
+	var walk func(v ssa.Value, depth int) bool
+	walk = func(v ssa.Value, depth int) bool {
+		if depth > 12 {
+			return false
+		}
+		v = strip(v)
+		if s, ok := constString(v); ok {
+			addLit(s)
+			return true
+		}
+		switch x := v.(type) {
+		case *ssa.Convert:
+			return walk(x.X, depth+1)
+		case *ssa.BinOp:
+			if x.Op == token.ADD {
+				if b, ok := x.Type().Underlying().(*types.Basic); ok && b.Info()&types.IsString != 0 {
+					return walk(x.X, depth+1) && walk(x.Y, depth+1)
+				}
+			}
+		case *ssa.Call:
+			if calleeID(&x.Call) == "fmt.Sprintf" {
+				fm, isS := constString(x.Call.Args[0])
+				els, ok := sliceElems(x.Call.Args[1])
+				if !isS || !ok {
+					return false
+				}
+				k := 0
+				for i := 0; i < len(fm); i++ {
+					if fm[i] != '%' {
+						addLit(fm[i : i+1])
+						continue
+					}
+					if i+1 >= len(fm) {
+						return false
+					}
+					i++
+					switch fm[i] {
+					case '%':
+						addLit("%")
+					case 's', 'v', 'd':
+						if k >= len(els) {
+							return false
+						}
+						out = append(out, strPart{val: strip(els[k].V)})
+						k++
+					default:
+						return false
+					}
+				}
+				return k == len(els)
+			}
+		}
+		out = append(out, strPart{val: v})
+		return true
+	}
+	if !walk(v, 0) {
+		return nil, false
+	}
+	return out, true
 }
